@@ -121,7 +121,115 @@ func canonAddr(fa *ssa.FieldAddr, depth int) string {
 	return fa.X.Name() + "." + name
 }
 
+// gpoly: a small integer polynomial over canonical atoms (key = sorted atoms joined by '*', "" = constant).
+type gpoly map[string]int64
+
+func gconst(k int64) gpoly { return gpoly{"": k} }
+
+func (a gpoly) add(b gpoly, sign int64) gpoly {
+	out := gpoly{}
+	for k, v := range a {
+		out[k] += v
+	}
+	for k, v := range b {
+		out[k] += sign * v
+	}
+	for k, v := range out {
+		if v == 0 {
+			delete(out, k)
+		}
+	}
+	return out
+}
+
+func (a gpoly) mul(b gpoly) gpoly {
+	out := gpoly{}
+	for k1, v1 := range a {
+		for k2, v2 := range b {
+			var atoms []string
+			if k1 != "" {
+				atoms = append(atoms, strings.Split(k1, "*")...)
+			}
+			if k2 != "" {
+				atoms = append(atoms, strings.Split(k2, "*")...)
+			}
+			sort.Strings(atoms)
+			out[strings.Join(atoms, "*")] += v1 * v2
+		}
+	}
+	for k, v := range out {
+		if v == 0 {
+			delete(out, k)
+		}
+	}
+	return out
+}
+
+func (a gpoly) String() string {
+	var keys []string
+	for k := range a {
+		keys = append(keys, k)
+	}
+	sort.Strings(keys)
+	var parts []string
+	for _, k := range keys {
+		if k == "" {
+			parts = append(parts, fmt.Sprint(a[k]))
+		} else {
+			parts = append(parts, fmt.Sprintf("%d·%s", a[k], k))
+		}
+	}
+	if len(parts) == 0 {
+		return "0"
+	}
+	return strings.Join(parts, " + ")
+}
+
+func (a gpoly) equal(b gpoly) bool { return len(a.add(b, -1)) == 0 }
+
+// polyOf: integer expression as a polynomial; anything that is not +,−,×,constant becomes an atom.
+func polyOf(v ssa.Value, depth int) gpoly {
+	if depth < 12 {
+		switch x := v.(type) {
+		case *ssa.Const:
+			if k, ok := ssau.ConstInt(x); ok {
+				return gconst(k)
+			}
+		case *ssa.Convert:
+			return polyOf(x.X, depth+1)
+		case *ssa.ChangeType:
+			return polyOf(x.X, depth+1)
+		case *ssa.BinOp:
+			switch x.Op {
+			case token.ADD:
+				return polyOf(x.X, depth+1).add(polyOf(x.Y, depth+1), 1)
+			case token.SUB:
+				return polyOf(x.X, depth+1).add(polyOf(x.Y, depth+1), -1)
+			case token.MUL:
+				return polyOf(x.X, depth+1).mul(polyOf(x.Y, depth+1))
+			}
+		case *ssa.UnOp:
+			if x.Op == token.MUL {
+				if a, ok := x.X.(*ssa.Alloc); ok {
+					var vals []ssa.Value
+					for _, r := range ssau.Refs(a) {
+						if st, ok := r.(*ssa.Store); ok && st.Addr == a {
+							vals = append(vals, st.Val)
+						}
+					}
+					if len(vals) == 1 {
+						return polyOf(vals[0], depth+1)
+					}
+				}
+			}
+		}
+	}
+	atom := strings.ReplaceAll(canonExpr(v, 0), "*", "×")
+	return gpoly{atom: 1}
+}
+
 type arrayDesc struct {
+	poly   gpoly
 	kind   string // "make", "append", ""
 	length string // for make
 	at     ssa.Instruction
@@ -170,9 +278,10 @@ func describeArray(v ssa.Value, handoff ssa.Instruction) arrayDesc {
 	case len(makes) == 1 && !zeroLen && len(apps) == 0:
 		d.kind = "make"
 		d.length = canonExpr(makes[0].Len, 0)
+		d.poly = polyOf(makes[0].Len, 0)
 	case len(apps) > 0 && (len(makes) == 0 || zeroLen):
 		// symbolic total: Σ over append sites of (elements × Π trip counts of the enclosing loops)
-		var terms []string
+		total := gpoly{}
 		for _, a := range apps {
 			n := appendCount(a)
 			if n < 0 {
@@ -182,24 +291,24 @@ func describeArray(v ssa.Value, handoff ssa.Instruction) arrayDesc {
 			if !ok {
 				return d
 			}
-			terms = append(terms, t)
+			total = total.add(t, 1)
 			if d.at == nil || a.Pos() < d.at.Pos() {
 				d.at = a
 			}
 		}
-		sort.Strings(terms)
 		d.kind = "append"
-		d.length = strings.Join(terms, " + ")
+		d.poly = total
+		d.length = total.String()
 	}
 	return d
 }
 
 // siteTotal: how many elements the append site contributes in total, as a canonical product — only when the
 // site executes unconditionally in counted / range loops whose trip counts are recognised.
-func siteTotal(a *ssa.Call, n int, handoff ssa.Instruction) (string, bool) {
+func siteTotal(a *ssa.Call, n int, handoff ssa.Instruction) (gpoly, bool) {
 	fn := a.Parent()
 	loops := ssau.Loops(fn)
-	factors := []string{fmt.Sprint(n)}
+	total := gconst(int64(n))
 	b := a.Block()
 	var enclosing []*ssau.Loop
 	for _, l := range loops {
@@ -213,27 +322,26 @@ func siteTotal(a *ssa.Call, n int, handoff ssa.Instruction) (string, bool) {
 		// unconditional within this loop: the site's block (or the inner loop's header) dominates every latch
 		for _, latch := range l.Latch {
 			if !inner.Dominates(latch) {
-				return "", false
+				return nil, false
 			}
 		}
 		t, ok := tripCount(l)
 		if !ok {
-			return "", false
+			return nil, false
 		}
-		factors = append(factors, t)
+		total = total.mul(t)
 		inner = l.Header
 	}
 	// unconditional with respect to the hand-off: executed on every path that reaches the point where the
 	// array is given to the mesh (an array built and attached inside `if withUVs { … }` is fine)
 	if handoff == nil || handoff.Parent() != fn || !inner.Dominates(handoff.Block()) {
-		return "", false
+		return nil, false
 	}
-	sort.Strings(factors)
-	return strings.Join(factors, "*"), true
+	return total, true
 }
 
 // tripCount: canonical trip count of `for i := s; i < B; i++` / `for … := range slice`.
-func tripCount(l *ssau.Loop) (string, bool) {
+func tripCount(l *ssau.Loop) (gpoly, bool) {
 	for b := range l.Blocks {
 		if len(b.Instrs) == 0 {
 			continue
@@ -265,13 +373,9 @@ func tripCount(l *ssau.Loop) (string, bool) {
 		if !okStart || !step {
 			continue
 		}
-		bound := canonExpr(cmp.Y, 0)
-		if start == 0 {
-			return bound, true
-		}
-		return fmt.Sprintf("(%s - %d)", bound, start), true
+		return polyOf(cmp.Y, 0).add(gconst(start), -1), true
 	}
-	return "", false
+	return nil, false
 }
 
 // appendCount: number of elements one append adds (-1: spread of a slice of unknown length).
@@ -404,30 +508,15 @@ func Generators(fns []*ssa.Function, modelingPath string) []GenFinding {
 					ds = append(ds, d)
 				}
 			}
-			for _, kind := range []string{"make", "append"} {
-				var same []arrayDesc
-				for _, d := range ds {
-					if d.kind == kind {
-						same = append(same, d)
-					}
-				}
-				if len(same) < 2 {
-					continue
-				}
-				ref := same[0]
-				for _, d := range same[1:] {
-					ok := true
-					detail := ""
-					ok = d.length == ref.length
-					if kind == "make" {
-						detail = "arrays of one mesh made with lengths " + ref.length + " and " + d.length
-					} else {
-						detail = "arrays of one mesh receive " + ref.length + " and " + d.length + " elements (elements × loop trip counts per append site)"
-					}
+			if len(ds) >= 2 {
+				ref := ds[0]
+				for _, d := range ds[1:] {
+					ok := d.poly.equal(ref.poly)
+					detail := "arrays of one mesh hold " + ref.poly.String() + " and " + d.poly.String() + " elements (" + ref.kind + " / " + d.kind + ": make length, or elements × loop trip counts per append site)"
 					if !ok {
 						detail += " — the attribute arrays of the mesh differ in length"
 					}
-					out = append(out, GenFinding{Rule: "GEN-LEN", Fn: fn, At: d.at, OK: ok, Key: kind, Detail: detail})
+					out = append(out, GenFinding{Rule: "GEN-LEN", Fn: fn, At: d.at, OK: ok, Key: d.kind, Detail: detail})
 				}
 			}
 		}
